@@ -42,6 +42,9 @@ void ServerPrivate::process(QTcpSocket *socket)
 {
     Socket *httpSocket = new Socket(socket, this);
 
+    // Ensure the socket is deleted when the client disconnects
+    connect(socket, &QTcpSocket::disconnected, httpSocket, &Socket::deleteLater);
+
     // Wait until the socket finishes reading the HTTP headers before routing
     connect(httpSocket, &Socket::headersParsed, [this, httpSocket]() {
         if (handler) {
